@@ -266,3 +266,104 @@ func passesOnEveryExit(p *eng.Prog, fn *ssa.Function, m eng.Matcher) (bool, stri
 	}
 	return false, "a return is reachable without the reset (neither on the path nor in a defer registered before it)"
 }
+
+// singleFlight: the boolean flag field guards a background job that must never run twice at once.
+//   - the flag becomes true only through CompareAndSwap(false, true) (a Load followed by Store(true) lets two triggers both start);
+//   - the job goroutine is started only on the success edge of that CAS;
+//   - the flag is cleared only by the job itself (function literals inside the starter).
+func singleFlight(c *eng.Ctx, flag string, starter string) {
+	p := c.P
+	f := c.Fn(starter)
+	var cas []eng.Site
+	n := 0
+	for _, fn := range p.AllFuncs {
+		for _, b := range fn.Blocks {
+			for _, in := range b.Instrs {
+				fa, m, call := eng.AtomicOp(in)
+				if fa == nil || eng.FieldKeyOfAddr(fa) != flag {
+					continue
+				}
+				top := topFunc(c, fn)
+				switch m {
+				case "Load":
+				case "CompareAndSwap", "CAS":
+					a := call.Common().Args
+					oldV, o1 := a[1].(*ssa.Const)
+					newV, o2 := a[2].(*ssa.Const)
+					okC := o1 && o2 && oldV.Value != nil && newV.Value != nil && oldV.Value.String() == "false" && newV.Value.String() == "true"
+					c.Check(okC && top == starter, fmt.Sprintf("claim-is-cas(false,true)@%s[%d]", top, n), in, fn, "the flag is claimed with CompareAndSwap(false, true) in "+starter, "")
+					if fn == f {
+						cas = append(cas, eng.Site{Fn: fn, Instr: in})
+					}
+					n++
+				case "Store", "Swap":
+					a := call.Common().Args
+					v, isC := a[1].(*ssa.Const)
+					isFalse := isC && v.Value != nil && v.Value.String() == "false"
+					c.Check(isFalse, fmt.Sprintf("no-blind-set@%s[%d]", top, n), in, fn, "the flag is never set to true by a plain Store (check-then-set lets two triggers both pass the check)", "Store of "+p.Desc(a[1]))
+					c.Check(top == starter && fn != f, fmt.Sprintf("cleared-by-the-job@%s[%d]", top, n), in, fn, "the flag is cleared only by the job itself", "cleared in "+p.FuncKey(fn))
+					n++
+				default:
+					c.Check(false, fmt.Sprintf("unknown-op@%s[%d]", top, n), in, fn, "only Load / CompareAndSwap / Store(false) are used on the flag", m)
+					n++
+				}
+			}
+		}
+	}
+	c.Check(len(cas) == 1, "one-claim", nil, f, starter+" claims the flag at one place", fmt.Sprintf("%d", len(cas)))
+	if len(cas) != 1 {
+		return
+	}
+	te, _ := eng.BoolCheckEdges(f, cas[0].Instr.(ssa.Value))
+	gos := 0
+	for _, b := range f.Blocks {
+		for _, in := range b.Instrs {
+			if g, ok := in.(*ssa.Go); ok {
+				gos++
+				ok2 := false
+				for _, e := range te {
+					if eng.DominatedByEdge(f, g, e) {
+						ok2 = true
+					}
+				}
+				c.Check(ok2, fmt.Sprintf("job-started-only-by-the-claimer[%d]", gos), g, f, "the background job is started only on the success edge of the claim", "")
+			}
+		}
+	}
+	c.Check(gos >= 1, "job-started", nil, f, starter+" starts the job in a goroutine", "no go statement")
+}
+
+// errorsOnlyFrom: every error fn can return is an error one of the listed callees returned (error provenance): fn adds no
+// failure of its own, in particular no "not found" for an empty result.
+func errorsOnlyFrom(c *eng.Ctx, fnKey string, callees eng.Matcher, what string) {
+	p := c.P
+	f := c.Fn(fnKey)
+	srcs := c.Some(f, callees, what)
+	n := 0
+	for _, b := range f.Blocks {
+		if b == f.Recover {
+			continue
+		}
+		for _, in := range b.Instrs {
+			r, ok := in.(*ssa.Return)
+			if !ok || len(r.Results) == 0 {
+				continue
+			}
+			ev := eng.RetVal(r, len(r.Results)-1)
+			if ev == nil || !isErrorType(ev.Type()) || eng.IsNilConst(ev) {
+				continue
+			}
+			n++
+			from := eng.DependsOn(ev, func(x ssa.Value) bool {
+				for _, s := range srcs {
+					if x == s.Instr.(ssa.Value) {
+						return true
+					}
+				}
+				return false
+			})
+			c.Check(from, fmt.Sprintf("%s:error-is-the-callees[%d]", fnKey, n), r, f, "the only errors "+fnKey+" returns are those of "+what+" (an empty match is an empty set, not a failure)", "returns "+p.Desc(ev))
+		}
+	}
+	c.Check(n >= 1, fnKey+":has-error-exit", nil, f, fnKey+" propagates the error of "+what, "no error return")
+}
